@@ -99,7 +99,7 @@ class FilteredVerdict(vlib.Verdict):
         super().add(mm)
 
 
-def run_family(prop, tier, mc_cfg, edge_cfg, sizes, deep=False, probes=(), assumptions=(), quick_paths=4000, extra=None):
+def run_family(prop, tier, mc_cfg, edge_cfg, sizes, deep=False, probes=(), assumptions=(), quick_paths=4000, extra=None, live_cfg=None):
     import time as _t
     t0 = _t.time()
     wd = vlib.workdir(prop)
@@ -108,6 +108,13 @@ def run_family(prop, tier, mc_cfg, edge_cfg, sizes, deep=False, probes=(), assum
     per, blocks = sizes[tier]
     trees, specs, gen = gen_trees(wd, binary, per, blocks, prop)
     m = leg_m(wd, mc_cfg, trees, timeout=1500)
+    live = None
+    if live_cfg:
+        # liveness under fairness, without VIEW or CONSTRAINT, on the first trees only
+        k = 6 if tier == "quick" else 16
+        sub = os.path.join(wd, "trees_live.json")
+        json.dump(json.load(open(trees))[:k], open(sub, "w"))
+        live = leg_m(wd, live_cfg, sub, timeout=1500, workers=4)
     probe_res = {}
     for cfg, expect in probes:
         hit, _ = probe(wd, cfg, trees, expect)
@@ -127,6 +134,9 @@ def run_family(prop, tier, mc_cfg, edge_cfg, sizes, deep=False, probes=(), assum
            "model": {"cfg": mc_cfg, "trees": len(specs), "tree_blocks": blocks, "depth": m.depth},
            "replay": {k: rr[k] for k in ("states", "edges", "paths", "cover_paths", "covered", "steps")},
            "replay_counts": rr["counts"], "design_probes": probe_res}
+    if live:
+        cov["liveness"] = {"cfg": live_cfg, "states": live.distinct, "transitions": live.generated, "property": "CatchUp under FairSpec (SF on Poll, WF on reorg steps)"}
+        cov["states"] += live.distinct; cov["transitions"] += live.generated
     if tt:
         cov["trace_validation"] = {k: v for k, v in tt.items() if k != "samples"}
     vlib.write_evidence(prop, tier, "model_checking", cov, list(assumptions) + [
